@@ -6,6 +6,7 @@ import Driver.HintE
 import Driver.Proto
 import Driver.Conc
 import Driver.HTreeE
+import Driver.ConcFineE
 
 open Driver
 
@@ -21,6 +22,7 @@ def main (args : List String) : IO UInt32 := do
     | ["proto"] => Driver.Proto.run lines
     | ["conc"] => Driver.Conc.run lines
     | ["htree"] => Driver.HTreeE.run lines
+    | ["concfine"] => Driver.ConcFineE.run lines
     | _ => do IO.eprintln "usage: driver <engine> < trace"; return 2
   IO.println s!"SUMMARY lines={lines.size} checked={rep.checked} diffs={rep.diffs}"
   return 0
